@@ -39,16 +39,7 @@ def run(ctx):
             if n % 9 == 0:
                 ctx.sample({"call": short(c), "in": fn, "where": b.where(c.ln), "disposition": v})
     ctx.floor("R-ERR", "io::Result-producing call sites", n, 60)
-    # ---- R-WHO: partial-write methods
-    cw_write = F.fn("<CountingWrite as Write>::write")
-    for p in sorted(sc):
-        b = F.bodies[p]
-        for c in b.calls:
-            nm = c.fn or c.name
-            if re.search(r"io::Write::(write|write_vectored)$", nm):
-                ok = (b is cw_write)
-                ctx.ob("R-WHO", "partial-write|%s" % F.canon_of(b), ok, "Write::write is called by CountingWrite::write only", b.where(c.ln),
-                       what="%s calls the partial-write method %s directly: output and offsets now depend on how the sink chunks writes" % (F.canon_of(b), nm.rsplit("::", 1)[-1]))
+    write_discipline(ctx, F, sc)
     # ---- counter bookkeeping
     writers = {}
     for p, b in F.bodies.items():
@@ -60,48 +51,6 @@ def run(ctx):
         ctx.ob("R-WHO", "bytes_written-writer|%s" % fn, fn in allowed, "%s is an owner of the byte counter" % fn, ws[0][0].where(ws[0][3]),
                what="%s writes CountingWrite.bytes_written outside the reviewed owners" % fn)
     ctx.floor("R-WHO", "owners of bytes_written", len(set(writers) & allowed), 2)
-    # (a) write(): adds the Ok payload of the inner write, returns the same result
-    b = cw_write
-    inner = [c for c in b.calls if re.search(r"io::Write::write$", c.fn or "")]
-    ok = False
-    how = "?"
-    if len(inner) == 1:
-        res = inner[0].dest["l"]
-        for bi, si, s in lib.stores_to_field(b, "bytes_written"):
-            t = b.rvname(s["rv"], 4)
-            how = t
-            pay = "%s@Ok.0" % b.lname(res)
-            m = re.match(r"^Add\((.*bytes_written),(\w+)\)$", t)
-            if m:
-                added = m.group(2)
-                # `bytes` must be the Ok payload
-                for l, nme in b.names.items():
-                    if nme == added:
-                        d = b.single_def(l)
-                        if d and d[2] == "rv" and b.rvname(d[3], 2) == pay:
-                            ok = True
-                if added == pay:
-                    ok = True
-        # returned value is the inner result
-        ret_ok = any(u["kind"] == "rv" and u["whole"] and u["stmt"]["lhs"]["l"] == 0 for u in b.uses(res))
-        ok = ok and ret_ok
-    ctx.ob("R-ORDER", "write-counts-accepted-bytes", ok, "bytes_written += (inner.write(buf)? as Ok).0 ; result returned unchanged (%s)" % how, b.where(),
-           what="CountingWrite::write does not add exactly the number of bytes the sink accepted (or does not return the sink's result)")
-    # (b) write_all(): adds buffer.len() and delegates the same buffer
-    b = F.fn("<CountingWrite as Write>::write_all")
-    ok = False
-    how = "?"
-    dels = [c for c in b.calls if re.search(r"io::Write::write_all$", c.fn or "")]
-    for bi, si, s in lib.stores_to_field(b, "bytes_written"):
-        t = b.rvname(s["rv"], 4)
-        how = t
-        m = re.match(r"^Add\((.*bytes_written),len\(&?\*?(\w+)\)\)$", t)
-        if m and len(dels) == 1:
-            buf = m.group(2)
-            if b.oname(dels[0].args[1], 3).strip("&*") == buf and dels[0].dest["l"] == 0:
-                ok = True
-    ctx.ob("R-ORDER", "write_all-counts-buffer", ok, "bytes_written += buffer.len(); inner.write_all(buffer) returned (%s)" % how, b.where(),
-           what="CountingWrite::write_all does not add buffer.len() for the buffer it delegates, or swallows the result")
     counted_sink(ctx, F)
     # (d) save(): BufWriter finalisation is propagated and follows save_internal
     for name in ("Document::save", "IncrementalDocument::save"):
@@ -161,8 +110,73 @@ def run(ctx):
                         "max_id < u32::MAX (documents with fewer than 2^32 objects)"]
 
 
+def write_discipline(ctx, F, sc=None):
+    """Offsets are read off the byte counter, so every byte handed to the sink must be counted exactly once and must arrive:
+    the partial-write method `Write::write` is called by CountingWrite::write only (everything else goes through write_all /
+    write_fmt, which loop), CountingWrite::write counts what the sink accepted, CountingWrite::write_all counts the buffer and
+    delegates the same buffer to the sink's write_all."""
+    if getattr(ctx, "_wd_done", None) == ctx.cur_cfg:
+        return
+    ctx._wd_done = ctx.cur_cfg
+    if sc is None:
+        sc = [p for p, b in F.bodies.items() if b.file.startswith("src/writer")]
+    # ---- R-WHO: partial-write methods
+    cw_write = F.fn("<CountingWrite as Write>::write")
+    for p in sorted(sc):
+        b = F.bodies[p]
+        for c in b.calls:
+            nm = c.fn or c.name
+            if re.search(r"io::Write::(write|write_vectored)$", nm):
+                ok = (b is cw_write)
+                ctx.ob("R-WHO", "partial-write|%s" % F.canon_of(b), ok, "Write::write is called by CountingWrite::write only", b.where(c.ln),
+                       what="%s calls the partial-write method %s directly: output and offsets now depend on how the sink chunks writes" % (F.canon_of(b), nm.rsplit("::", 1)[-1]))
+    # (a) write(): adds the Ok payload of the inner write, returns the same result
+    b = cw_write
+    inner = [c for c in b.calls if re.search(r"io::Write::write$", c.fn or "")]
+    ok = False
+    how = "?"
+    if len(inner) == 1:
+        res = inner[0].dest["l"]
+        for bi, si, s in lib.stores_to_field(b, "bytes_written"):
+            t = b.rvname(s["rv"], 4)
+            how = t
+            pay = "%s@Ok.0" % b.lname(res)
+            m = re.match(r"^Add\((.*bytes_written),(\w+)\)$", t)
+            if m:
+                added = m.group(2)
+                # `bytes` must be the Ok payload
+                for l, nme in b.names.items():
+                    if nme == added:
+                        d = b.single_def(l)
+                        if d and d[2] == "rv" and b.rvname(d[3], 2) == pay:
+                            ok = True
+                if added == pay:
+                    ok = True
+        # returned value is the inner result
+        ret_ok = any(u["kind"] == "rv" and u["whole"] and u["stmt"]["lhs"]["l"] == 0 for u in b.uses(res))
+        ok = ok and ret_ok
+    ctx.ob("R-ORDER", "write-counts-accepted-bytes", ok, "bytes_written += (inner.write(buf)? as Ok).0 ; result returned unchanged (%s)" % how, b.where(),
+           what="CountingWrite::write does not add exactly the number of bytes the sink accepted (or does not return the sink's result)")
+    # (b) write_all(): adds buffer.len() and delegates the same buffer
+    b = F.fn("<CountingWrite as Write>::write_all")
+    ok = False
+    how = "?"
+    dels = [c for c in b.calls if re.search(r"io::Write::write_all$", c.fn or "")]
+    for bi, si, s in lib.stores_to_field(b, "bytes_written"):
+        t = b.rvname(s["rv"], 4)
+        how = t
+        m = re.match(r"^Add\((.*bytes_written),len\(&?\*?(\w+)\)\)$", t)
+        if m and len(dels) == 1:
+            buf = m.group(2)
+            if b.oname(dels[0].args[1], 3).strip("&*") == buf and dels[0].dest["l"] == 0:
+                ok = True
+    ctx.ob("R-ORDER", "write_all-counts-buffer", ok, "bytes_written += buffer.len(); inner.write_all(buffer) returned (%s)" % how, b.where(),
+           what="CountingWrite::write_all does not add buffer.len() for the buffer it delegates, or swallows the result")
+
+
 def counted_sink(ctx, F):
     """Every byte that reaches the sink is counted: offsets in the cross-reference data are read off the counter."""
+    write_discipline(ctx, F)
     # (c) the bypass in IncrementalDocument::save_internal
     b = F.fn("IncrementalDocument::save_internal")
     ok = False
